@@ -91,6 +91,14 @@ var propInfo = map[string]struct {
 			"T-STD: strings.TrimSpace removes lead(s) leading and trail(s) trailing bytes; strings.TrimLeftFunc(s, unicode.IsSpace) removes the same leading bytes; fmt.Sprintf of a constant format is a function of its arguments",
 			"witnesses of the rendering statement (window text, cut flags, caret column) are read from the function's final local variables; a rename of those locals needs the contract file to follow",
 		}},
+	"C05": {"proof",
+		"Row mode, proved on the real code. (1) An alias is a pure abbreviation: FieldReferenceExpr.Execute returns, for every pair, cache content and cache switch, exactly the outcome and value of its defining expression on that pair. (2) The row cache is invisible: the cache is *coherent* with a pair when every entry holds the value of its alias on that pair; evaluating any expression requires and preserves coherence (interface contract of Expression.Execute, active under this property), SetFieldResult / GetFieldResult / Clear are proved against the map semantics, and every row-mode scan (full, prefix, range, multi-get) is proved to establish coherence for each pair before it filters it - which failed on the pinned tree (D5, repaired) - and to hand the returned pair over with a cache coherent with exactly that pair; LimitPlan passes this on. (3) ProjectionPlan.Next returns one column per field, in order, column k being the value of field k on the pair the child produced - whether it came out of the cache or was evaluated - and `select *` returns the stored key and value.",
+		[]string{
+			"NOT covered: batch mode (chunk caches, AdjustChunkCache; suspected defects D8, D20 of DESIGN.md section 6), aliases used in ORDER BY / GROUP BY / aggregate arguments, and the statement-level rewriting that replaces names by references",
+			"A-ALIAS: every alias reference points at the select field of its name, field names of a statement are distinct (aliasOf is the function from names to select fields); the checker's rewriting is proved to create references only from names (C14) but the link to aliasOf is assumed",
+			"A-EVAL: the outcome of evaluating an expression on a pair is a function of the expression and the pair (evalok / evalv); ev_ref is the documented meaning of a reference",
+			"ProjectionPlan.Next requires a non-nil execution context (it calls ctx.Clear() unconditionally)",
+		}},
 	"C07": {"proof",
 		"Order plan, proved on the real code: the comparators return the sign of the documented order (integers and floats numerically, text byte-wise, false before true, negated for DESC; values of different kinds compare as unordered instead of panicking); Less is exactly the lexicographic order over the ORDER BY keys (first differing key decides, ties are not less - stated with a ghost index); the heap adapter's Len/Swap/Push/Pop/Less are exact; Init resolves every order field to the position of the select field of that name; prepare/prepareBatch push every row of the child exactly once (ghost heap size = total - pos, child drained), Next/Batch pop one row per returned row and stop exactly when all have been returned; buildFinalOrderPlan elides only a lone `order by key asc` on a non-aggregate query.",
 		[]string{
